@@ -263,6 +263,11 @@ def model_request(case, verb='run'):
     w = G.wire_items(case)
     if w is None:
         return None
+    if verb == 'spec':
+        # the Lean specification covers lawful matchers only (no position counters)
+        if positional(case) or not documented_use(case):
+            return None
+        return proto.line(Atom('C12'), Atom('tree'), w)
     return proto.line(Atom('C12'), Atom(verb), FUEL if verb == 'run' else LAZY_FUEL, w)
 
 
@@ -298,6 +303,8 @@ def compare(cases, res, stream, verb='run'):
             real = ['ok', [[str(x[0]), x[1]] for x in real[1]]]
         res.streams[stream] = res.streams.get(stream, 0) + 1
         hits = m.pop() if m[0] == 'ok' else None
+        if verb == 'spec':
+            hits = None
         if hits is not None and not positional(cases[i]) and documented_use(cases[i]):
             # the model's ghost hit counters against the independent reference's firing counts
             ref, fired = G.reference(cases[i])
@@ -360,6 +367,7 @@ def shard(arg):
             res.nontrivial.add(key)
     compare(cases, res, 'match-eager')
     compare(cases, res, 'match-lazy', 'lazy')
+    compare(cases, res, 'match-spec', 'spec')
     return res
 
 
